@@ -41,7 +41,7 @@ Print Assumptions C14_stateless_write_path.
 
 (* no emitted byte depends on indeterminate memory *)
 Theorem C14_only_determined_bytes : forall cs cap c s s' out,
-  (forall f, In f (wfields (prog_of cs c M_write)) -> defined_val (s f)) ->
+  (forall f, In f (emit_fields (prog_of cs c M_write)) -> defined_val (s f)) ->
   enc cs cap c s = Ok (s', out) -> Forall byte out.
 Proof. exact enc_defined. Qed.
 Print Assumptions C14_only_determined_bytes.
